@@ -107,7 +107,8 @@ def stylesheetOptions (u : RawConfig) (g : GlobalConfig) : CA.SOpts :=
     skipUnmatched := getB o "stylesheet.skipUnmatched"
     format := getB o "output.format"
     newline := getS o "output.newline"
-    indent := getS o "output.indent" }
+    indent := getS o "output.indent"
+    scope := u.contextName }
 
 inductive Outcome
   | ok (s : Str)
@@ -115,6 +116,13 @@ inductive Outcome
   | token (pos : Option Nat)
   | internal (tag : String)
   | fuel
+
+def ofCss : Except CA.Err Str → Outcome
+  | .ok s => .ok s
+  | .error (.scanner p) => .scanner p
+  | .error (.token p) => .token p
+  | .error (.internal t) => .internal t
+  | .error .fuel => .fuel
 
 /-- `emmet.expand(abbr, config, global_config)` -/
 def expand (abbr : Str) (u : RawConfig) (g : GlobalConfig) : Outcome :=
